@@ -5,6 +5,14 @@ pid = sys.argv[1]
 extra = sys.argv[2] if len(sys.argv) > 2 else ""
 props = {json.loads(l)["id"]: json.loads(l) for l in open("/verif/properties.jsonl")}
 p = props[pid]
+if pid in ("C01", "C02", "C14") and not extra:
+    d = open("/verif/DESIGN.md").read()
+    a = d.index("### 3.1 The rule set")
+    b = d.index("### 3.4 Control-flow semantics")
+    sec = d[a:b]
+    # drop references to the Lean machinery
+    sec = sec[:sec.index("In Lean: `refCheck")] + sec[sec.index("### 3.2 The program domain"):]
+    extra = "\nThe rule set, program domain and analysis order the property refers to (DESIGN.md §3.1-§3.3; Fn labels are recorded known defects — a change that merely reproduces one of those known defects does not count):\n\n" + sec + "\n"
 print(f"""You are helping to evaluate a verification effort for the Rust library mrLSD/semantic-analyzer-rs
 (a semantic analyzer: it type-checks and scope-checks a fixed AST and emits a flat semantic instruction stack with
 registers and labels). You have your own scratch git worktree of the repository at /tmp/wt/{pid} (work ONLY there;
